@@ -199,3 +199,7 @@ pub fn idct_channel(
         }
     }
 }
+
+#[cfg(any(kani, ruffle_rs_h263_rs_verif))]
+#[path = "/verif/hooks/h263/decoder/cpu/idct.rs"]
+mod verif_hook;
